@@ -13,7 +13,9 @@ from .world import World
 
 SIGS = {"KILL": real_signal.SIGKILL, "TERM": real_signal.SIGTERM, "INT": real_signal.SIGINT}
 
-REPO_SRC = os.path.realpath("/repo/src/experimaestro")
+import experimaestro as _xpm  # noqa: E402
+
+REPO_SRC = os.path.realpath(os.path.dirname(_xpm.__file__))
 TRACED = {
     os.path.join(REPO_SRC, p)
     for p in (
@@ -75,6 +77,7 @@ class Runner:
         self.idle_snaps = []
         self.trace_on = bool(scn.get("cfg", {}).get("trace"))
         self.crash_line = {}  # pid -> (line n, sig)
+        self.crash_func = {}  # pid -> [function name, k-th traced line inside it, sig, counter]
         self.preempt = scn.get("cfg", {}).get("preempt", 0)
         self.k.on_idle.append(self.idle_hook)
         self.w.on_kill.append(self.on_proc_killed)
@@ -110,6 +113,12 @@ class Runner:
             return self.local_trace
         proc.lines += 1
         cl = self.crash_line.get(pid)
+        cf = self.crash_func.get(pid)
+        if cf is not None and frame.f_code.co_name == cf[0]:
+            cf[3] += 1
+            if cf[3] == cf[1]:
+                cl = (proc.lines, cf[2])
+                self.crash_func.pop(pid)
         if cl is not None and proc.lines == cl[0]:
             sys.settrace(None)
             code = frame.f_code
@@ -212,6 +221,9 @@ class Runner:
 
         if "line" in trig:
             self.crash_line[pid] = (trig["line"], sig)
+            self.trace_on = True
+        elif "func" in trig:
+            self.crash_func[pid] = [trig["func"], trig["k"], sig, 0]
             self.trace_on = True
         elif "step" in trig:
             base = k.steps
